@@ -374,6 +374,7 @@ class Interp:
         self.steps = 0
         self.call_stack: List[str] = []
         self.yield_sinks: List[List[Any]] = []
+        self.module_consts: Dict[Any, Any] = {}
 
     # ---------------------------------------------------------------- path driver
     def run_paths(self, fn: Callable[['Interp'], Any]) -> List[PathResult]:
@@ -386,6 +387,7 @@ class Interp:
             self.steps = 0
             self.call_stack = []
             self.yield_sinks = []
+            self.module_consts = {}
             if hasattr(self.hooks, 'reset'):
                 self.hooks.reset(self)  # type: ignore[attr-defined]
             try:
@@ -825,13 +827,16 @@ class Interp:
             try:
                 return self.repo.fold(mi.assigns[name], mi)
             except NotConstant:
-                e = Env(mi)
-                return self.eval(mi.assigns[name], e)
+                ck = (mi.name, name)
+                if ck not in self.module_consts:  # module-level objects are singletons (identity tests such as `x is Undefined`)
+                    self.module_consts[ck] = self.eval(mi.assigns[name], Env(mi))
+                return self.module_consts[ck]
         if name in mi.imports:
             return self.resolve_qual(self.repo.resolve_name(mi, name))
         if hasattr(_bi, name):
             return Builtin(name)
-        raise Unsupported(f'unbound name {name} in {mi.name}')
+        # unbound at this point of the path: Python raises NameError / UnboundLocalError
+        raise Raised(ExcVal('UnboundLocalError', (name,), origin=mi.name))
 
     def resolve_qual(self, q: str) -> Any:
         kind, obj = self.repo.lookup(q)
@@ -846,7 +851,7 @@ class Interp:
             try:
                 return self.repo.fold(expr, mi)
             except NotConstant:
-                return self.eval(expr, Env(mi))
+                return self.global_name(q.rsplit('.', 1)[-1], mi)
         # maybe module attribute chain, e.g. pytezos.x.y.Z re-exported
         mod, _, attr = q.rpartition('.')
         if mod in self.repo.modules:
@@ -1773,13 +1778,18 @@ class Interp:
             if name in ('index', 'count', 'remove') and not is_concrete((recv, args)):
                 ks = [vkey(x) for x in recv]
                 ak = vkey(args[0])
+                if isinstance(recv, set) and name == 'remove' and ak not in ks:
+                    raise Raised(ExcVal('KeyError'))
                 if name == 'count':
                     return ks.count(ak)
                 if ak in ks:
                     i = ks.index(ak)
                     if name == 'index':
                         return i
-                    del recv[i]
+                    if isinstance(recv, set):
+                        recv.discard([x for x in recv if vkey(x) == ak][0])
+                    else:
+                        del recv[i]
                     return None
                 raise Raised(ExcVal('ValueError'))
             if name == 'sort':
